@@ -401,6 +401,39 @@ func execRunOnce(pr execPrepared, in execIn) (execObs, string) {
 	return obs, coq
 }
 
+// execSetupNotifyEnv: a desktop session as internal/ui's NotifySend looks for it — DISPLAY set, `who` listing a
+// user on that display, `id` knowing him, and a SLOW notification pipeline (`sudo ... notify-send` takes delayMs) —
+// all fakes, first in $PATH. Command execution must not wait for a notification: a call that sends one on its
+// error path exceeds timeout + margin and is seen by the ordinary observer. Attempts are counted in notify_calls.
+func execSetupNotifyEnv(workDir string, delayMs int) string {
+	bin := filepath.Join(workDir, "fakebin")
+	if err := os.MkdirAll(bin, 0o755); err != nil {
+		panic(err)
+	}
+	calls := filepath.Join(workDir, "notify_calls")
+	for name, body := range map[string]string{
+		"who":         "echo \"verifuser :77           2026-10-01 10:00 (:77)\"\n",
+		"id":          "echo 4242\n",
+		"sudo":        "echo \"sudo $*\" >> " + calls + "\nsleep " + execSecs(delayMs) + "\n",
+		"notify-send": "echo notify-send >> " + calls + "\n",
+	} {
+		if err := os.WriteFile(filepath.Join(bin, name), []byte("#!/bin/sh\n"+body), 0o755); err != nil {
+			panic(err)
+		}
+	}
+	os.Setenv("DISPLAY", ":77")
+	os.Setenv("PATH", bin+":"+os.Getenv("PATH"))
+	return calls
+}
+
+func execNotifyCount(calls string) int {
+	data, err := os.ReadFile(calls)
+	if err != nil {
+		return 0
+	}
+	return strings.Count(string(data), "\n")
+}
+
 type execJob struct {
 	in   execIn
 	tags []string
@@ -413,6 +446,7 @@ func init() {
 		if os.Geteuid() != 0 {
 			panic("exec driver must run as root (root-owned scripts)")
 		}
+		notifyCalls := execSetupNotifyEnv(ctx.WorkDir, ctx.Param("notify", 3000))
 		var jobs []execJob
 		add := func(in execIn, tags ...string) { jobs = append(jobs, execJob{in, append([]string{"kind=" + in.Kind, "api=" + itoa(in.Api)}, tags...)}) }
 		for _, raw := range append(ctx.Corpus, ctx.Replay...) {
@@ -522,6 +556,9 @@ func init() {
 		wg.Wait()
 		for i, j := range jobs {
 			tags := append(append([]string{}, j.tags...), "out="+results[i].obs.Class)
+			if i == 0 && execNotifyCount(notifyCalls) > 0 {
+				tags = append(tags, "desktop-notifications-sent="+itoa(execNotifyCount(notifyCalls)))
+			}
 			nontrivial := j.in.Kind != "exit" || j.in.Code != 0 || len(j.in.Out) == 0
 			ctx.Emit(Record{In: j.in, Obs: results[i].obs, Coq: results[i].coq, Tags: tags, NonTrv: nontrivial,
 				Key: fmt.Sprintf("%d|%s|%d|%d|%d|%s|%v|%d|%s", j.in.Api, j.in.Kind, j.in.Code, j.in.Sig, j.in.T, j.in.HoldFd, j.in.Out, j.in.ErrOut, results[i].obs.Class)})
